@@ -13,7 +13,7 @@ def plan(tier, ctx):
             core = (n, ao) in ((10, 2), (7, 8))
             qs.append(P.stored_query("C06", n, ao, False, core=core, witness=core))
     # (c) over-subscription detection, dynamic-header HLIT/HDIST rejection
-    for nsym in ([2, 3, 4] if quick else list(range(1, 9)) + [12, 19]):
+    for nsym in ([2, 3, 4] if quick else list(range(1, 9))):
         qs.append(P.setcodes_query(nsym, core=(nsym == 3), witness=(nsym == 3), timeout=(None if quick else 2400)))
     qs.append(P.dynprefix_query())
     # (d) distance lookup-table builder on concrete code-length shapes with ARBITRARY previous table contents:
